@@ -686,9 +686,9 @@ class Log(registering.StoriedRegistrar):
                 if field in loggee:
                     value = loggee[field]
                     try:
-                        text = fmt % value
+                        text = fmt % (value, )  # a tuple value is one value
                     except TypeError:
-                        text = '\t%s' % value
+                        text = '\t%s' % (value, )
                     cf.write(ns2u(text))
 
                 else:  # field no longer present in loggee so just tab
@@ -750,7 +750,7 @@ class Log(registering.StoriedRegistrar):
                         try:
                             text = fmt % (element, )
                         except TypeError:
-                            text = '\t%s' % element
+                            text = '\t%s' % (element, )
                         cf.write(ns2u(text))
                         cf.write(u'\n')
 
@@ -793,9 +793,9 @@ class Log(registering.StoriedRegistrar):
                             fmt = self.formats[tag][field]
                             value = entry[field]
                             try:
-                                text = fmt % value
+                                text = fmt % (value, )  # a tuple value is one value
                             except TypeError:
-                                text = '\t%s' % value
+                                text = '\t%s' % (value, )
                             cf.write(ns2u(text))
 
                         else:  # field not in element
